@@ -243,12 +243,13 @@ func (conn *Conn) send(call *Call) {
 	err := conn.codec.WriteRequest(&ctx, call.Args)
 	if err != nil {
 		conn.mutex.Lock()
+		registered := conn.pending[seq] == call
 		delete(conn.pending, seq)
 		if call.upgrade.Stream == openStream {
 			delete(conn.streams, seq)
 		}
 		conn.mutex.Unlock()
-		if call != nil {
+		if call != nil && registered {
 			call.Error = err
 			call.done()
 		}
@@ -283,7 +284,8 @@ func (conn *Conn) recv() {
 	if err == io.EOF {
 		err = ErrShutdown
 	}
-	for _, call := range conn.pending {
+	for seq, call := range conn.pending {
+		delete(conn.pending, seq)
 		call.Error = err
 		call.done()
 	}
